@@ -21,7 +21,7 @@ import (
 
 // C15 — concurrent requests are isolated, race-free and get unique message IDs.
 
-var canaryRe = regexp.MustCompile(`MKc(\d+)x|hc(\d+)\.idp\.example|spc(\d+)\.example`)
+var canaryRe = regexp.MustCompile(`MK_c(\d+)x|hc(\d+)\.idp\.example|spc(\d+)\.example`)
 
 // foreignCanary returns a canary of another client found in text ("" = none).
 func foreignCanary(text string, client int) string {
@@ -96,7 +96,7 @@ func c15Round(r *core.Run, idx int, rng *rand.Rand) {
 		d.ACS = []spsim.ACS{{Binding: []string{spsim.BindPost, spsim.BindRedirect}[c%2], Location: fmt.Sprintf("https://spc%d.example/acs", c), Index: "0"}}
 		d.SLO = []spsim.SLO{{Binding: spsim.BindPost, Location: fmt.Sprintf("https://spc%d.example/slo", c)}}
 		mustRegister(e.W, d, fmt.Sprintf("appc%d", c))
-		u := randUser(rand.New(rand.NewSource(int64(idx*1000+c))), fmt.Sprintf("UMKc%dx", c), false)
+		u := randUser(rand.New(rand.NewSource(int64(idx*1000+c))), fmt.Sprintf("U_MK_c%dx", c), false)
 		e.W.AddUser(u)
 		userOfApp[fmt.Sprintf("appc%d", c)] = u
 		cs[c] = &clientState{sp: d, user: u, host: fmt.Sprintf("hc%d.idp.example", c)}
@@ -190,9 +190,9 @@ func c15Round(r *core.Run, idx int, rng *rand.Rand) {
 				switch op := lr.Intn(10); {
 				case op < 3 || len(st.sessions) == 0:
 					a := validAuthn(lr, st.sp)
-					a.ID = fmt.Sprintf("MKc%dxreq%d", c, k)
+					a.ID = fmt.Sprintf("MK_c%dxreq%d", c, k)
 					a.Destination = "https://" + st.host + "/saml/SSO"
-					s := ssoSend{Binding: []string{"redirect", "post"}[lr.Intn(2)], XML: a.XML(lr), HasRelay: true, Relay: fmt.Sprintf("MKc%dxrelay%d", c, k)}
+					s := ssoSend{Binding: []string{"redirect", "post"}[lr.Intn(2)], XML: a.XML(lr), HasRelay: true, Relay: fmt.Sprintf("MK_c%dxrelay%d", c, k)}
 					var q, body, method string
 					if s.Binding == "post" {
 						method, body = "POST", spsim.FormBody("SAMLRequest", spsim.B64([]byte(s.XML)), "RelayState", s.Relay)
@@ -222,21 +222,21 @@ func c15Round(r *core.Run, idx int, rng *rand.Rand) {
 							report("own_callback_failed", kind, fmt.Sprintf("client %d: completed session %s not answered with Success (status %d)", c, id, call.D.Status), call)
 						} else {
 							m := call.D.Msg
-							if m.NameID != st.user.Username || m.Issuer != "https://"+st.host+"/saml/metadata" || len(m.Audiences) != 1 || m.Audiences[0] != st.sp.EntityID || !strings.HasPrefix(call.D.RelayState, fmt.Sprintf("MKc%dx", c)) || m.Destination != st.sp.ACS[0].Location {
+							if m.NameID != st.user.Username || m.Issuer != "https://"+st.host+"/saml/metadata" || len(m.Audiences) != 1 || m.Audiences[0] != st.sp.EntityID || !strings.HasPrefix(call.D.RelayState, fmt.Sprintf("MK_c%dx", c)) || m.Destination != st.sp.ACS[0].Location {
 								report("reply_not_determined_by_own_request", kind, fmt.Sprintf("client %d: NameID %q Issuer %q Audience %v RelayState %q Destination %q", c, m.NameID, m.Issuer, m.Audiences, call.D.RelayState, m.Destination), call)
 							}
 						}
 					}
 				case op < 7:
 					l := conformantLogout(lr, st.sp)
-					l.ID = fmt.Sprintf("MKc%dxlogout%d", c, k)
-					call := do("logout", env.Req{Method: "POST", Path: env.PathSLO, Body: spsim.FormBody("SAMLRequest", spsim.B64([]byte(l.XML(lr))), "RelayState", fmt.Sprintf("MKc%dxlrelay%d", c, k))})
+					l.ID = fmt.Sprintf("MK_c%dxlogout%d", c, k)
+					call := do("logout", env.Req{Method: "POST", Path: env.PathSLO, Body: spsim.FormBody("SAMLRequest", spsim.B64([]byte(l.XML(lr))), "RelayState", fmt.Sprintf("MK_c%dxlrelay%d", c, k))})
 					if call.Panic == "" && (call.D.Msg == nil || call.D.Msg.InResponseTo != l.ID || call.D.Msg.Issuer != "https://"+st.host+"/saml/metadata") {
 						report("reply_not_determined_by_own_request", "logout", fmt.Sprintf("client %d: logout reply %+v", c, call.D.Msg), call)
 					}
 				case op < 8:
 					q := conformantQuery(lr, st.sp, st.user.Username)
-					q.ID = fmt.Sprintf("MKc%dxquery%d", c, k)
+					q.ID = fmt.Sprintf("MK_c%dxquery%d", c, k)
 					q.Destination = ""
 					call := do("query", env.Req{Method: "POST", Path: env.PathAttr, Body: q.XML(lr), CT: "text/xml"})
 					if call.Panic == "" && (!call.D.Success() || call.D.Msg.InResponseTo != q.ID || call.D.Msg.NameID != st.user.Username) {
